@@ -430,7 +430,7 @@ def run_impl(c):
             store = mem if mem is not None else (LocalStore(str(path)) if kind == "obj" else (str(path) if kind == "str" else path))
             before_snap = snapshot(real)
             before_tree = dump_tree(real, it)
-            step = {"existed": has_geff(real), "ov": call["ov"], "ep": call["ep"]}
+            step = {"existed": has_geff(real), "ov": call["ov"], "ep": call["ep"], "beside": bool(foreign(before_tree)["ch"])}
             captured = []
             try:
                 with capture_all(captured):
@@ -503,7 +503,9 @@ def oracle(c, o):
         family = "converter" if ep in ("ctc", "tm") else ("graph-writer" if ep in ("nx", "sg") else "plain")
         inside = ep == "ctc" and call["seg"] == "inside"
         store = "object" if call.get("skind") == "obj" else ("seg-inside" if inside else ("beside" if (beside or seen_inside) else "path"))
-        tags = {"step": i, "entry": ep, "family": family, "store": store, "pre": c["pre"], "kind": "ehist"}
+        # beside: the directory holds (or, with the label volume inside it, is about to hold) members that are not the geff's
+        tags = {"step": i, "entry": ep, "family": family, "store": store, "pre": c["pre"], "kind": "ehist",
+                "beside": bool(st.get("beside") or inside)}
         if family == "graph-writer" and store == "beside":
             tags["store"] = "mixed"   # the open finding of geff.write (graph-writer-overwrite-path-beside-foreign-members)
         if st["existed"] and not call["ov"]:
